@@ -275,6 +275,70 @@ func c20EnvCopy(c *Ctx, ix *PkgIndex, ec envCopy) {
 		}
 		c.Check(good, "R2", sp+"|"+ctor.name+"|defaults → "+ctor.envFn+" → user options", at(ix.M, fn.Pos()), "options override environment overrides defaults", "configuration sources are applied in another order: an environment variable overrides an explicit option (or defaults override both)")
 	}
+	// what the connection derives from a setting is derived from the setting's final value: the compressor dial option is
+	// appended in NewGRPCConfig, after every source has been applied, under a test of the resolved Compression field — an option
+	// or environment hook that appends it while the sources are applied cannot be overridden by a later source saying "none"
+	if fn := ix.Func("NewGRPCConfig"); fn != nil {
+		g := ix.FG(fn)
+		n, good, why := 0, true, ""
+		var pos token.Pos = fn.Pos()
+		for _, f := range ix.All {
+			inspectNoLit(f.Body(), func(nd ast.Node) bool {
+				call, ok := nd.(*ast.CallExpr)
+				if !ok || !isCallTo(info, call, "google.golang.org/grpc.UseCompressor") {
+					return true
+				}
+				n++
+				if f != fn {
+					good, why, pos = false, "in "+ix.Outer(f).Name+" (applied while the sources are still being merged)", call.Pos()
+					return true
+				}
+				x := g.NodeOf(call)
+				if x == nil {
+					good, why, pos = false, "not located in the flow graph", call.Pos()
+					return true
+				}
+				apply := g.Match(func(m ast.Node) bool {
+					c2, ok := m.(*ast.CallExpr)
+					if !ok {
+						return false
+					}
+					cf := callee(info, c2)
+					return cf != nil && cf.Name() == "ApplyGRPCOption"
+				})
+				after := len(apply) == 1 && !g.InCycle(x)
+				if after {
+					// the loop over the options lies behind: the call is reachable from it, and it is not reachable from the call
+					s1, _ := g.Reach([]*GNode{apply[0]}, nil, nil)
+					s2, _ := g.Reach([]*GNode{x}, nil, nil)
+					after = s1[x] && !s2[apply[0]]
+				}
+				tested, _ := g.DominatedByEdges(x, func(e *GEdge) bool {
+					return edgeImplies(e, func(cnd ast.Expr, pol int) bool {
+						l, op, r, ok := cmpNorm(cnd, pol)
+						if !ok || op != token.EQL {
+							return false
+						}
+						isComp := func(y ast.Expr) bool {
+							sel, isSel := unparen(y).(*ast.SelectorExpr)
+							return isSel && sel.Sel.Name == "Compression"
+						}
+						isGzip := func(y ast.Expr) bool {
+							o := objOf(info, y)
+							return o != nil && o.Name() == "GzipCompression"
+						}
+						return (isComp(l) && isGzip(r)) || (isComp(r) && isGzip(l))
+					})
+				})
+				if !after || !tested {
+					good, why, pos = false, "not under a test of the resolved Compression setting after the options have been applied", call.Pos()
+				}
+				return true
+			})
+		}
+		c.Check(good && n >= 1, "R2", sp+"|NewGRPCConfig|the compressor dial option is derived from the resolved Compression", at(ix.M, pos), itoa(n)+" site(s), after defaults → environment → options",
+			"the gzip dial option is appended "+why+": a source of higher precedence that turns compression off (OTEL_EXPORTER_OTLP_<SIGNAL>_COMPRESSION=none, WithCompression(NoCompression)) cannot retract it")
+	}
 	// env helper: the value parsers ignore unparsable values (WithDuration returns before fn on error)
 	if ep := ix.M.Pkg(strings.Replace(ec.pkg, "/otlpconfig", "/envconfig", 1)); ep != nil || true {
 		path := strings.Replace(strings.Replace(ec.pkg, "/otlpconfig", "/envconfig", 1), "/oconf", "/envconfig", 1)
@@ -955,11 +1019,36 @@ func c20SDK(c *Ctx) {
 	if fn := c.Fn(tx, "R5", "samplerFromEnv"); fn != nil {
 		g := tx.FG(fn)
 		var samplerVar, hasArg types.Object
+		// the text of OTEL_TRACES_SAMPLER_ARG: the looked-up value, trimmed or not, under whatever name it is kept
+		argVars := map[types.Object]bool{}
+		var isArgValue func(e ast.Expr) bool
+		isArgValue = func(e ast.Expr) bool {
+			e = unparen(e)
+			if call, ok := e.(*ast.CallExpr); ok {
+				if isCallTo(tinfo, call, "strings.TrimSpace") && len(call.Args) == 1 {
+					return isArgValue(call.Args[0])
+				}
+				return isCallTo(tinfo, call, "os.Getenv") && len(call.Args) == 1 && strings.Contains(exprStr(call.Args[0]), "Arg")
+			}
+			o := objOf(tinfo, e)
+			return o != nil && argVars[o]
+		}
+		canon := func(e ast.Expr) string {
+			if call, ok := unparen(e).(*ast.CallExpr); ok && len(call.Args) == 1 && isArgValue(call.Args[0]) {
+				if cf := callee(tinfo, call); cf != nil && cf.Name() == "parseTraceIDRatio" {
+					return "parseTraceIDRatio(samplerArg)"
+				}
+			}
+			return exprStr(e)
+		}
 		inspectNoLit(fn.Body(), func(n ast.Node) bool {
 			if as, ok := n.(*ast.AssignStmt); ok && len(as.Lhs) == 2 && len(as.Rhs) == 1 {
 				if call, ok := unparen(as.Rhs[0]).(*ast.CallExpr); ok && isCallTo(tinfo, call, "os.LookupEnv") {
 					if strings.Contains(exprStr(call.Args[0]), "Arg") {
 						hasArg = objOf(tinfo, as.Lhs[1])
+						if o := objOf(tinfo, as.Lhs[0]); o != nil {
+							argVars[o] = true
+						}
 					} else {
 						samplerVar = objOf(tinfo, as.Lhs[0])
 					}
@@ -1002,13 +1091,13 @@ func c20SDK(c *Ctx) {
 				render := func(e ast.Expr, at *GNode) string {
 					call, isC := unparen(e).(*ast.CallExpr)
 					if !isC || len(call.Args) != 1 {
-						return exprStr(e)
+						return canon(e)
 					}
 					if _, isID := unparen(call.Args[0]).(*ast.Ident); !isID {
-						return exprStr(e)
+						return canon(e)
 					}
 					r := g.ResolveUnder(env, seenU, call.Args[0], at)
-					inner := exprStr(r)
+					inner := canon(r)
 					if rc, isRC := unparen(r).(*ast.CallExpr); isRC {
 						if tup, isT := tinfo.TypeOf(rc).(*types.Tuple); isT && tup.Len() > 1 {
 							inner += "#0"
@@ -1024,7 +1113,7 @@ func c20SDK(c *Ctx) {
 						}
 						got = append(got, d)
 					} else if ok && len(rs.Results) == 1 {
-						got = append(got, exprStr(rs.Results[0]))
+						got = append(got, canon(rs.Results[0]))
 					}
 				}
 				sort.Strings(got)
